@@ -361,7 +361,8 @@ def t_stage(E):
     flat = [E.opaque("leaf0", "array"), E.opaque("leaf1", "array"), E.opaque("leaf2", "array")]
     in_tree, out_tree = E.opaque("in_tree"), E.opaque("out_tree")
     aval = E.ctx.fn("jax_get_aval", U, U)
-    I.ext["jax.core.get_aval"] = lambda I_, x: UVal(aval(I_.to_u(x)), "aval")
+    # (an abstract value is an external object: its methods - strip_weak_type, update, ... - are uninterpreted pure functions)
+    I.ext["jax.core.get_aval"] = lambda I_, x: UVal(aval(I_.to_u(x)), "extobj")
     I.ext["jax.api_util.debug_info"] = lambda I_, *a, **k: E.opaque("debug_info")
 
     def wrap_init(I_, fn, params=None, debug_info=None):
